@@ -67,6 +67,10 @@ def _qt_flags():
     return QT_CFLAGS
 
 
+# harnesses whose field/case lists are split into parts that compile in parallel: name -> (part source, number of parts = -DPART=0..n-1)
+PARTS = {"fields": ("fields_part.cpp", 8)}
+
+
 def build_harness(name, flavour="asan", extra_src=()):
     """compile harness/<name>.cpp against the flavour's library; rebuild when any dependency is newer"""
     bd = build_lib(flavour)
@@ -82,6 +86,8 @@ def build_harness(name, flavour="asan", extra_src=()):
         if not need:
             t = os.path.getmtime(out)
             deps = [src, lib]
+            if name in PARTS:
+                deps += [os.path.join(VERIF, "harness", PARTS[name][0])] + [os.path.join(VERIF, "harness", "%s_part_%d.h" % (name, k)) for k in range(PARTS[name][1])]
             try:
                 txt = open(dep).read().replace("\\\n", " ")
                 deps += txt.split(":", 1)[1].split()
@@ -100,12 +106,24 @@ def build_harness(name, flavour="asan", extra_src=()):
             # (the harnesses are template-heavy glue: without optimisation and debug info they compile several times faster; sanitizer
             #  reports are attributed by the library's frames, which keep their own flags)
             san = [f for f in FLAVOURS[flavour].split() if f not in ("-O1", "-g")] + ["-O0"]
-            cmd = ["g++", "-std=c++20", "-fPIC", "-MD", "-MF", dep, "-MT", "x"] + san + [
-                "-I" + os.path.join(VERIF, "harness"),
-                "-I" + os.path.join(REPO, "src/base"), "-I" + os.path.join(REPO, "src/client"),
-                "-I" + os.path.join(REPO, "src/server"), "-I" + os.path.join(REPO, "src"),
-                "-I" + os.path.join(bd, "src")] + c + [src] + list(extra_src) + [lib] + l + ["-o", out + ".tmp"]
+            inc = ["-I" + os.path.join(VERIF, "harness"),
+                   "-I" + os.path.join(REPO, "src/base"), "-I" + os.path.join(REPO, "src/client"),
+                   "-I" + os.path.join(REPO, "src/server"), "-I" + os.path.join(REPO, "src"),
+                   "-I" + os.path.join(bd, "src")] + c
             t0 = time.time()
+            objs = []
+            if name in PARTS:
+                psrc, n = PARTS[name]
+
+                def one(k):
+                    o = os.path.join(hd, "%s_part_%d.o" % (name, k))
+                    rr = _sh(["g++", "-std=c++20", "-fPIC", "-c", "-DPART=%d" % k] + san + inc + [os.path.join(VERIF, "harness", psrc), "-o", o])
+                    return o, rr
+                for o, rr in pmap(one, range(n), n):
+                    if rr.returncode:
+                        raise HarnessFailure("harness %s (part) failed to compile:\n%s" % (name, rr.stdout[-6000:]))
+                    objs.append(o)
+            cmd = ["g++", "-std=c++20", "-fPIC", "-MD", "-MF", dep, "-MT", "x"] + san + inc + [src] + list(extra_src) + objs + [lib] + l + ["-o", out + ".tmp"]
             r = _sh(cmd)
             if r.returncode:
                 raise HarnessFailure("harness %s failed to compile:\n%s" % (name, r.stdout[-6000:]))
